@@ -512,6 +512,10 @@ def check_cases(cases, rep, tag="cases"):
                                               "k": 1000 * int(case.get("k", 0)) + pidx},
                                              list(fresh), fresh, transforms=None, k=pidx)
             rep.dist("late-reads:partitions")
+            for n, a, b in cc.warnings_as_errors({"response": case["response"], "transforms": None},
+                                                  ["zscores", "pvals"], transforms=None, k=pidx)[:1]:
+                out.append((case, n + " differs when warnings are errors",
+                            {"partition": pidx, "normal": a, "warnings_as_errors": b}))
             for n, a, b, culprits in late[:1]:
                 out.append((case, "%s depends on what was read before" % n,
                             {"partition": pidx, "fresh": a, "after_other_reads": b, "population": population,
